@@ -76,7 +76,7 @@ func (g *RegexGen) atom(d int) string {
 	case 4:
 		return g.class()
 	case 5:
-		return g.pick("perlatom", `\d`, `\w`, `\s`, `.`, `\D`, `\b`, `\.`, `\pL`, `[[:alpha:]]`)
+		return g.pick("perlatom", `\d`, `\w`, `\s`, `.`, `\D`, `\b`, `\.`, `\pL`, `[[:alpha:]]`, `^`, `$`, `^`, `\A`, `\z`)
 	case 6:
 		if d < 3 {
 			return "(" + g.alt(d+1) + ")"
